@@ -36,16 +36,18 @@ CHECKS = {
          "this check were repaired in /repo (fix: commits c6ff09c, bf757f0).",
          "swc's parser, malformed text and wall-clock promptness are outside any Gallina model; they are covered by the run (testing). "
          "Only extract_union is modelled; the ~60 other expect/unreachable sites are exercised, not modelled."),
- "C06": ("Theorems (Coq, closed): for every truth assignment of the atoms — i.e. for every value, whatever lists and mappings denote — "
+ "C06": ("Theorems (Coq, closed): (1) for every truth assignment of the atoms — i.e. for every value, whatever lists and mappings denote — "
          "and every diagram (no bound on atoms, size, shape or ordering), BddOps::union/intersect/diff/complement and Bdd::from_node "
-         "evaluate to the Boolean combination of their operands; bdd_to_dnf and dnf_to_bdd preserve evaluation; sub_vec_union/"
-         "intersect/diff compute set union/intersection/difference of literal sets wherever is_subtype is equality; tag codes "
-         "regenerated from subtype.rs are distinct bits. Models of BddOps, DNF, ProperSubtypeOps and SemTypeOps are tied to the Rust "
-         "engine by syntactic comparison of every result; each implementation result is additionally judged by complete truth "
-         "tables / membership tables computed with the Gallina eval / mem (search).",
-         "The operations take fuel in the model (they recurse on results); theorems are about terminating calls and fuel sufficiency "
-         "is observed, not proved. The SemType-level statement (merge by tag) is checked on generated operands; custom formats and "
-         "void/undefined are modelled but outside the proved fragment, as the property states."),
+         "evaluate to the Boolean combination of their operands; bdd_to_dnf and dnf_to_bdd preserve evaluation; (2) sub_vec_union/intersect/diff "
+         "compute set union/intersection/difference of literal sets wherever is_subtype is equality; tag codes regenerated from subtype.rs "
+         "are distinct bits; (3) SemTypeOps::union/intersect/diff/complement on whole semantic types (C06_semtype_*): for all well-formed "
+         "types of the fragment and every valid point, membership in the result is the Boolean combination of the memberships — the "
+         "bit-set arithmetic, the SubTypePairIterator merge of the two tag-sorted vectors and the per-tag operations, proved together. "
+         "Models of BddOps, DNF, ProperSubtypeOps and SemTypeOps are tied to the Rust engine by syntactic comparison of every result; each "
+         "implementation result is additionally judged by complete truth tables / membership tables computed with the Gallina eval / mem.",
+         "The diagram operations take fuel in the model (they recurse on results); theorems are about terminating calls and fuel sufficiency "
+         "is observed, not proved. Custom formats, template literals with holes and void/undefined are modelled and compared but outside the "
+         "proved fragment, as the property states."),
  "C08": ("Theorems on the runtime trees (all trees/values): literal-set dispatch (AnyOfConstsRuntype) and discriminator dispatch "
          "(AnyOfDiscriminatedRuntype with the mapping shape the printer emits) accept exactly what the plain union of their members "
          "accepts; hash256 encoding and hash() are invariant under property/mapping/format order and descriptions; the alias-boundary "
@@ -87,17 +89,20 @@ CHECKS = {
          "Partial: template-literal patterns (regex semantics), intersections and tuples (both have known findings) and the link "
          "'members of a dispatch node = flattened union' are outside the theorem and covered by the search; object types are read as "
          "'non-null objects' (beff's reading), ${number} as TypeScript's in the reference and as the emitted pattern in rmember."),
- "C05": ("Theorems about the top level of the decision (Model/Subtype.v = SemTypeOps::is_empty/is_subtype/is_same_type, with list and mapping "
-         "emptiness as a parameter): is_same_type answers true exactly when both assignability decisions do "
-         "(C05_same_type_is_mutual_assignability, C05_same_type_answer); is_subtype is emptiness of the difference, and difference / "
-         "union / intersection of the decision diagrams are the Boolean operations for every valuation of the atoms (Props/C06.v). Partial: "
-         "the emptiness procedures for lists and mappings (Frisch's Phi', check_mapping_empty, the memoised co-inductive cut) are not "
-         "modelled; the property is decided on the implementation by comparing every decision, on generated pairs converted in both orders "
-         "and queried in two orders, with a bounded enumeration of the exact values of the left type. Three genuine defects found this "
-         "way were repaired in /repo (fix: a6cefb8, 16f31f9, 3a0fd83).",
+ "C05": ("Theorems (Model/Subtype.v = SemTypeOps::is_empty/is_subtype/is_same_type; list and mapping emptiness are a parameter): "
+         "C05_difference_is_set_difference (difference of whole semantic types = set difference, every valid point, every valuation of "
+         "the atoms); C05_assignable_implies_inclusion: an 'assignable' answer implies inclusion of the denoted sets for all well-formed "
+         "types, structural components included, provided the emptiness oracle for lists/mappings is sound on realisable points; "
+         "C05_basic_types_assignability_is_inclusion: on the basic fragment (null, booleans, numbers, strings, their literals, unions, "
+         "differences) the decision is exact in both directions (a 'not assignable' answer comes with a separating value: fresh number / "
+         "string constructions); is_same_type answers true exactly when both directions do. Partial: the emptiness procedures for lists "
+         "and mappings (Frisch's Phi', check_mapping_empty, the memoised co-inductive cut) are not modelled; for structural types the "
+         "property is decided on the implementation by comparing every decision, on generated pairs converted in both orders and queried "
+         "in two orders, with a bounded enumeration of the exact values of the left type. Three genuine defects found this way were "
+         "repaired in /repo (fix: a6cefb8, 16f31f9, 3a0fd83).",
          "Bounded enumeration (depth 4, capped breadth, universe = literals of both types + one fresh string/number/key): a missing "
-         "separating value is only reported when the enumeration was exhaustive; decisions involving intersections of object types are a "
-         "listed finding (the exact/open reading of atoms is not a Boolean algebra)."),
+         "separating value is only reported when the enumeration was exhaustive; decisions involving intersections of object types or "
+         "unions whose object members overlap as open patterns are listed findings (the exact/open reading of atoms is not a Boolean algebra)."),
  "C07": ("Theorem C07_positive_basic_types_materialise_exactly (Model/Materialise.v = the per-tag part of convert_to_schema_no_cache, "
          "Model/SemSpec.v mem, Model/Ir.v rmember): for every semantic type made of the basic tags and positive literal sets and every basic "
          "value, the materialised IR type denotes exactly the semantic type; C07_refuted_excluded_literal_sets exhibits the unchanged "
@@ -108,11 +113,12 @@ CHECKS = {
          "The model is tied to to_schema.rs by comparing its output with the engine's on every semtype without structural components; "
          "value enumeration is bounded (testing); membership is read under the runtime conventions (null ~ undefined, optional may be nullish)."),
  "C14": ("Theorem C14_every_rebuild_answers_like_a_fresh_process: for every parse and extract (the compiler proper is a parameter), "
-         "every initial disk and every finite history of updates and rebuilds, each rebuild of the session model (thread-local cache, "
+         "every initial disk and every finite history of rebuilds and updates of existing files (what the watcher produces), each rebuild of the session model (thread-local cache, "
          "get_or_fetch_file, update_file_content_inner) returns what a fresh process returns for the disk at that moment — by the "
          "invariant 'every cached module was parsed from the text the file has now' (C14_cache_stays_coherent); the pinned tree's "
          "update (a text that does not parse keeps the old module) is refuted with a history, reproduced on the implementation and "
-         "repaired (fix: 5fd9985). The model is tied to packages/beff-wasm/src/lib.rs through the beff_verif hook: the cache reported "
+         "repaired (fix: 5fd9985); a module created during the session is refuted too (import resolutions are frozen in the cached importer: "
+         "listed finding). The model is tied to packages/beff-wasm/src/lib.rs through the beff_verif hook: the cache reported "
          "after every step of generated histories must satisfy the model's step relation (evaluated in Coq), and every rebuild of the "
          "real session is compared with a fresh thread on the same disk.",
          "The theorem assumes extract depends on the file manager only through the answers it gets (hypothesis, argued in DESIGN.md); "
